@@ -1,7 +1,7 @@
 #!/bin/bash
 # usage: seed_run.sh <seed-id> <property> [check args]   -- runs a check against the seeded change applied to the scratch worktree
 sid=$1; prop=$2; shift 2
-wt=/tmp/wt-sens
+wt=${WT:-/tmp/wt-sens}
 cd $wt && git checkout -q -- . && git clean -fdq && git checkout -q --detach $(git -C /repo rev-parse HEAD) && { git apply /verif/seeded/$sid/patch.diff 2>/dev/null || { echo "(original patch conflicts with later fixes: applying the port to HEAD, patch_head.diff)"; git apply /verif/seeded/$sid/patch_head.diff; }; } || exit 3
 cd /verif && VERIF_REPO_DIR=$wt ./bin/check $prop "$@" > /tmp/seedrun-$sid-$prop.log 2>&1
 code=$?
